@@ -67,6 +67,7 @@ type opT struct {
 	Keys  []uint32 `json:"keys"`
 	Auth  int      `json:"auth"`
 	Bad   bool     `json:"bad"`
+	Kss   [][]uint32 `json:"kss"`
 }
 
 type tcase struct {
@@ -110,6 +111,11 @@ type wstate struct {
 	seq    int
 	closed bool
 	chans  map[uint32]bool
+	// background goroutine (bg_writes ... join): while active, the driver leaves w alone
+	bgActive bool
+	bgDone   chan struct{}
+	bgErr    string
+	bgMaxMs  int64
 }
 
 type sstate struct {
@@ -481,6 +487,29 @@ func runCase(c tcase) (res result) {
 		}
 		return r
 	}
+	mkFrame := func(w int, ws *wstate, ks []uint32, bad bool) cesium.Frame {
+		ws.seq++
+		tag := int64(w)*tagMul + int64(ws.seq)
+		keys := make([]cesium.ChannelKey, 0, len(ks))
+		series := make([]telem.Series, 0, len(ks))
+		for j, k := range ks {
+			keys = append(keys, cesium.ChannelKey(k))
+			switch {
+			case bad && j == 0 && ws.chans[k] && cs.kinds[k] == "v":
+				series = append(series, telem.NewSeriesV[float32](1.5))
+			case cs.kinds[k] == "i":
+				cs.mu.Lock()
+				cs.tsN++
+				ts := tsBase + cs.tsN
+				cs.tsTag[ts] = [2]int{w, ws.seq}
+				cs.mu.Unlock()
+				series = append(series, telem.NewSeriesV[telem.TimeStamp](telem.TimeStamp(ts)))
+			default:
+				series = append(series, telem.NewSeriesV[int64](tag))
+			}
+		}
+		return telem.MultiFrame(keys, series)
+	}
 	doOp := func(i int, o opT) opRes {
 		switch o.Op {
 		case "open_writer":
@@ -511,7 +540,7 @@ func runCase(c tcase) (res result) {
 			})
 		case "close_writer":
 			ws, ok := cs.writers[o.W]
-			if !ok || ws.closed {
+			if !ok || ws.closed || ws.bgActive {
 				return opRes{E: "skip"}
 			}
 			ws.closed = true
@@ -520,7 +549,7 @@ func runCase(c tcase) (res result) {
 			})
 		case "set_auth":
 			ws, ok := cs.writers[o.W]
-			if !ok || ws.closed {
+			if !ok || ws.closed || ws.bgActive {
 				return opRes{E: "skip"}
 			}
 			return run(fmt.Sprintf("op %d Writer.SetAuthority", i), func() opRes {
@@ -532,35 +561,62 @@ func runCase(c tcase) (res result) {
 			})
 		case "write":
 			ws, ok := cs.writers[o.W]
-			if !ok || ws.closed {
+			if !ok || ws.closed || ws.bgActive {
 				return opRes{E: "skip"}
 			}
-			ws.seq++
-			tag := int64(o.W)*tagMul + int64(ws.seq)
-			keys := make([]cesium.ChannelKey, 0, len(o.Keys))
-			series := make([]telem.Series, 0, len(o.Keys))
-			for j, k := range o.Keys {
-				keys = append(keys, cesium.ChannelKey(k))
-				switch {
-				case o.Bad && j == 0 && ws.chans[k] && cs.kinds[k] == "v":
-					series = append(series, telem.NewSeriesV[float32](1.5))
-				case cs.kinds[k] == "i":
-					cs.mu.Lock()
-					cs.tsN++
-					ts := tsBase + cs.tsN
-					cs.tsTag[ts] = [2]int{o.W, ws.seq}
-					cs.mu.Unlock()
-					series = append(series, telem.NewSeriesV[telem.TimeStamp](telem.TimeStamp(ts)))
-				default:
-					series = append(series, telem.NewSeriesV[int64](tag))
-				}
-			}
+			fr := mkFrame(o.W, ws, o.Keys, o.Bad)
 			return run(fmt.Sprintf("op %d Writer.Write", i), func() opRes {
-				a, err := ws.w.Write(telem.MultiFrame(keys, series))
+				a, err := ws.w.Write(fr)
 				if err != nil {
 					ws.closed = true
 				}
 				return opRes{E: errClass(err), A: a}
+			})
+		case "bg_writes":
+			ws, ok := cs.writers[o.W]
+			if !ok || ws.closed || ws.bgActive {
+				return opRes{E: "skip"}
+			}
+			ws.bgActive, ws.bgDone, ws.bgErr, ws.bgMaxMs = true, make(chan struct{}), "", 0
+			kss := o.Kss
+			w := o.W
+			go func() {
+				defer close(ws.bgDone)
+				defer func() {
+					if r := recover(); r != nil {
+						ws.bgErr = fmt.Sprint("panic: ", r)
+					}
+				}()
+				for _, ks := range kss {
+					fr := mkFrame(w, ws, ks, false)
+					t0 := time.Now()
+					_, err := ws.w.Write(fr)
+					if ms := time.Since(t0).Milliseconds(); ms > ws.bgMaxMs {
+						ws.bgMaxMs = ms
+					}
+					if err != nil {
+						ws.bgErr = errClass(err)
+						return
+					}
+				}
+			}()
+			return opRes{}
+		case "join":
+			ws, ok := cs.writers[o.W]
+			if !ok || !ws.bgActive {
+				return opRes{E: "skip"}
+			}
+			return run(fmt.Sprintf("op %d join of writer %d's background Writer.Write calls", i, o.W), func() opRes {
+				<-ws.bgDone
+				ws.bgActive = false
+				if ws.bgMaxMs > res.MaxMs {
+					res.MaxMs = ws.bgMaxMs
+				}
+				if ws.bgErr != "" {
+					ws.closed = true
+					return opRes{E: "bg:" + ws.bgErr}
+				}
+				return opRes{}
 			})
 		case "open_streamer":
 			if _, dup := cs.strs[o.S]; dup {
@@ -671,16 +727,28 @@ func runCase(c tcase) (res result) {
 	}
 	// ---- teardown phase 1 (part of the script handed to the model): resume every
 	// consumer, then a final barrier; afterwards the observations are snapshotted.
-	if !hung && !cs.dbClosed {
+	if !hung {
 		tear := []opT{}
-		ids := append([]int{}, cs.order...)
-		sort.Ints(ids)
-		for _, id := range ids {
-			if id >= 0 {
-				tear = append(tear, opT{Op: "resume", S: id})
+		bgw := []int{}
+		for id, ws := range cs.writers {
+			if ws.bgActive {
+				bgw = append(bgw, id)
 			}
 		}
-		tear = append(tear, opT{Op: "sync"})
+		sort.Ints(bgw)
+		for _, id := range bgw {
+			tear = append(tear, opT{Op: "join", W: id})
+		}
+		if !cs.dbClosed {
+			ids := append([]int{}, cs.order...)
+			sort.Ints(ids)
+			for _, id := range ids {
+				if id >= 0 {
+					tear = append(tear, opT{Op: "resume", S: id})
+				}
+			}
+			tear = append(tear, opT{Op: "sync"})
+		}
 		for j, o := range tear {
 			res.TearOps = append(res.TearOps, o)
 			res.Ops = append(res.Ops, doOp(len(c.Ops)+j, o))
@@ -688,11 +756,12 @@ func runCase(c tcase) (res result) {
 				break
 			}
 		}
-	} else if !hung {
+	}
+	if !hung && cs.dbClosed {
 		// relay is gone; give the streamer goroutines time to hand over what they hold:
-		// wait until no consumer has recorded anything for 60 ms
+		// wait until no consumer has recorded anything for 150 ms
 		last, lastT := -1, time.Now()
-		for time.Since(lastT) < 60*time.Millisecond {
+		for time.Since(lastT) < 150*time.Millisecond {
 			n := 0
 			cs.mu.Lock()
 			for _, s := range cs.strs {
